@@ -17,82 +17,84 @@ import Mathlib.Data.Matrix.Mul
 import Mathlib.Data.Matrix.Diagonal
 import Mathlib.LinearAlgebra.Matrix.Trace
 import Mathlib.Algebra.Order.Field.Rat
+import Mathlib.Algebra.Order.Field.Basic
 
 namespace MenpoModel.C10
 open Matrix
 
 variable {n d k k' : ℕ}
+variable {K : Type} [Field K] [LinearOrder K] [IsStrictOrderedRing K]
 
 /-- `np.mean(X, axis=0)` -/
-def mean (X : Matrix (Fin n) (Fin d) ℚ) : Fin d → ℚ := fun j => (∑ i, X i j) / (n : ℚ)
+def mean (X : Matrix (Fin n) (Fin d) K) : Fin d → K := fun j => (∑ i, X i j) / (n : K)
 
 /-- the `m` of `pca`: the sample mean when `centre`, zeros otherwise -/
-def pcaMean (centre : Bool) (X : Matrix (Fin n) (Fin d) ℚ) : Fin d → ℚ :=
+def pcaMean (centre : Bool) (X : Matrix (Fin n) (Fin d) K) : Fin d → K :=
   if centre then mean X else 0
 
 /-- `X - m` (broadcast over rows) -/
-def centred (X : Matrix (Fin n) (Fin d) ℚ) (m : Fin d → ℚ) : Matrix (Fin n) (Fin d) ℚ :=
+def centred (X : Matrix (Fin n) (Fin d) K) (m : Fin d → K) : Matrix (Fin n) (Fin d) K :=
   Matrix.of fun i j => X i j - m j
 
 /-- `np.dot(X.T, X) / (n - 1)`  (branch `d < n`) -/
-def cov (Xc : Matrix (Fin n) (Fin d) ℚ) : Matrix (Fin d) (Fin d) ℚ :=
-  ((n : ℚ) - 1)⁻¹ • (Xcᵀ * Xc)
+def cov (Xc : Matrix (Fin n) (Fin d) K) : Matrix (Fin d) (Fin d) K :=
+  ((n : K) - 1)⁻¹ • (Xcᵀ * Xc)
 
 /-- `np.dot(X, X.T) / (n - 1)`  (branch `d ≥ n`) -/
-def gram (Xc : Matrix (Fin n) (Fin d) ℚ) : Matrix (Fin n) (Fin n) ℚ :=
-  ((n : ℚ) - 1)⁻¹ • (Xc * Xcᵀ)
+def gram (Xc : Matrix (Fin n) (Fin d) K) : Matrix (Fin n) (Fin n) K :=
+  ((n : K) - 1)⁻¹ • (Xc * Xcᵀ)
 
 /-- `(C + C.T) / 2.0` -/
-def symmetrize {a : ℕ} (C : Matrix (Fin a) (Fin a) ℚ) : Matrix (Fin a) (Fin a) ℚ :=
-  (2 : ℚ)⁻¹ • (C + Cᵀ)
+def symmetrize {a : ℕ} (C : Matrix (Fin a) (Fin a) K) : Matrix (Fin a) (Fin a) K :=
+  (2 : K)⁻¹ • (C + Cᵀ)
 
 /-- Gram path: `U = dot(V.T, X); U *= w[:, None]` with `V` given as rows (`k × n`) -/
-def gramComponents (w : Fin k → ℚ) (V : Matrix (Fin k) (Fin n) ℚ) (Xc : Matrix (Fin n) (Fin d) ℚ) :
-    Matrix (Fin k) (Fin d) ℚ :=
+def gramComponents (w : Fin k → K) (V : Matrix (Fin k) (Fin n) K) (Xc : Matrix (Fin n) (Fin d) K) :
+    Matrix (Fin k) (Fin d) K :=
   diagonal w * (V * Xc)
 
 /-- `MeanLinearVectorModel.project`: `np.dot(x - mean, components.T)` -/
-def project (U : Matrix (Fin k) (Fin d) ℚ) (m x : Fin d → ℚ) : Fin k → ℚ := (x - m) ᵥ* Uᵀ
+def project (U : Matrix (Fin k) (Fin d) K) (m x : Fin d → K) : Fin k → K := (x - m) ᵥ* Uᵀ
 
 /-- `instance` with full weights: `np.dot(weights, components) + mean` -/
-def inst (U : Matrix (Fin k) (Fin d) ℚ) (m : Fin d → ℚ) (w : Fin k → ℚ) : Fin d → ℚ := w ᵥ* U + m
+def inst (U : Matrix (Fin k) (Fin d) K) (m : Fin d → K) (w : Fin k → K) : Fin d → K := w ᵥ* U + m
 
 /-- `reconstruct = instance ∘ project` -/
-def reconstruct (U : Matrix (Fin k) (Fin d) ℚ) (m x : Fin d → ℚ) : Fin d → ℚ :=
+def reconstruct (U : Matrix (Fin k) (Fin d) K) (m x : Fin d → K) : Fin d → K :=
   inst U m (project U m x)
 
 /-- `MeanLinearVectorModel.project_out`: `(x - mean) - dot(project(x), components)` (the mean is
 not added back) -/
-def projectOut (U : Matrix (Fin k) (Fin d) ℚ) (m x : Fin d → ℚ) : Fin d → ℚ :=
+def projectOut (U : Matrix (Fin k) (Fin d) K) (m x : Fin d → K) : Fin d → K :=
   (x - m) - (project U m x) ᵥ* U
 
 /-- the active / trimmed prefix `_components[:k']` -/
-def prefixRows (U : Matrix (Fin k) (Fin d) ℚ) (h : k' ≤ k) : Matrix (Fin k') (Fin d) ℚ :=
+def prefixRows (U : Matrix (Fin k) (Fin d) K) (h : k' ≤ k) : Matrix (Fin k') (Fin d) K :=
   U.submatrix (Fin.castLE h) id
 
 /-- what `np.linalg.eigh` promises of the rows `U` (unit, mutually orthogonal) and values `l`
 for the symmetric matrix `C`, after the code's own selection / transposition -/
-structure EigContract (C : Matrix (Fin d) (Fin d) ℚ) (U : Matrix (Fin k) (Fin d) ℚ) (l : Fin k → ℚ) :
+structure EigContract (C : Matrix (Fin d) (Fin d) K) (U : Matrix (Fin k) (Fin d) K) (l : Fin k → K) :
     Prop where
   orth : U * Uᵀ = 1
   eig : U * C = diagonal l * U
 
 /-! ### executable residuals of the contract and of the conclusions (certificate checking) -/
 
-def orthResidual (U : Matrix (Fin k) (Fin d) ℚ) : Matrix (Fin k) (Fin k) ℚ := U * Uᵀ - 1
+def orthResidual (U : Matrix (Fin k) (Fin d) K) : Matrix (Fin k) (Fin k) K := U * Uᵀ - 1
 
-def eigResidual (C : Matrix (Fin d) (Fin d) ℚ) (U : Matrix (Fin k) (Fin d) ℚ) (l : Fin k → ℚ) :
-    Matrix (Fin k) (Fin d) ℚ := U * C - diagonal l * U
+def eigResidual (C : Matrix (Fin d) (Fin d) K) (U : Matrix (Fin k) (Fin d) K) (l : Fin k → K) :
+    Matrix (Fin k) (Fin d) K := U * C - diagonal l * U
 
 /-- `(n-1)⁻¹ Σ_s ((x_s - m) · u_i)²` -/
-def sampleVariance (Xc : Matrix (Fin n) (Fin d) ℚ) (U : Matrix (Fin k) (Fin d) ℚ) (i : Fin k) : ℚ :=
-  ((n : ℚ) - 1)⁻¹ * ∑ s, ((Xc * Uᵀ) s i) ^ 2
+def sampleVariance (Xc : Matrix (Fin n) (Fin d) K) (U : Matrix (Fin k) (Fin d) K) (i : Fin k) : K :=
+  ((n : K) - 1)⁻¹ * ∑ s, ((Xc * Uᵀ) s i) ^ 2
 
 /-- largest absolute entry -/
-def maxAbsEntry {a b : ℕ} (M : Matrix (Fin a) (Fin b) ℚ) : ℚ :=
+def maxAbsEntry {a b : ℕ} (M : Matrix (Fin a) (Fin b) K) : K :=
   (List.finRange a).foldl (fun acc i => (List.finRange b).foldl (fun acc j => max acc |M i j|) acc) 0
 
-def maxAbsVec {a : ℕ} (v : Fin a → ℚ) : ℚ := (List.finRange a).foldl (fun acc i => max acc |v i|) 0
+def maxAbsVec {a : ℕ} (v : Fin a → K) : K := (List.finRange a).foldl (fun acc i => max acc |v i|) 0
 
 /-! ### evaluation helpers (provably identities)
 
